@@ -202,6 +202,46 @@ mod imp {
                     Err(e) => show_terr(&e),
                 }
             }
+            // rbig <bytes> <unit hex>: a RawValue whose text is a JSON string of about <bytes> bytes made of the repeated UTF-8 unit, serialised at top level, in an
+            // array and as a struct field, compact and pretty, through a recording writer: every buffer handed to the writer is valid UTF-8 on its own, the raw
+            // text arrives in ONE buffer, and the concatenation is the expected document
+            "rbig" if f.len() == 3 => {
+                let n: usize = f[1].parse().unwrap_or(1);
+                let unit = match unhex(f[2]).and_then(|b| String::from_utf8(b).ok()) { Some(u) if !u.is_empty() => u, _ => return "BADCASE".into() };
+                let mut text = String::from("\"");
+                while text.len() < n { text.push_str(&unit); }
+                text.push('"');
+                let raw = match RawValue::from_string(text.clone()) { Ok(r) => r, Err(_) => return "SKIP".into() };
+                #[derive(serde::Serialize)]
+                struct Holder<'a> { id: u8, body: &'a RawValue }
+                let mut bad = vec![];
+                for pretty in [false, true] {
+                    for shape in 0..3 {
+                        let mut w = rw::ChunkWriter::new(0);
+                        let r = match (shape, pretty) {
+                            (0, false) => serde_json::to_writer(&mut w, &raw),
+                            (0, true) => serde_json::to_writer_pretty(&mut w, &raw),
+                            (1, false) => serde_json::to_writer(&mut w, &vec![&raw, &raw]),
+                            (1, true) => serde_json::to_writer_pretty(&mut w, &vec![&raw, &raw]),
+                            (_, false) => serde_json::to_writer(&mut w, &Holder { id: 1, body: &raw }),
+                            (_, true) => serde_json::to_writer_pretty(&mut w, &Holder { id: 1, body: &raw }),
+                        };
+                        if r.is_err() { bad.push(format!("err-{}-{}", shape, pretty)); continue; }
+                        if w.buffers.iter().any(|b| std::str::from_utf8(b).is_err()) { bad.push(format!("buffer-not-utf8-{}-{}", shape, pretty)); }
+                        let whole = w.buffers.iter().filter(|b| b.as_slice() == text.as_bytes()).count();
+                        if whole != if shape == 1 { 2 } else { 1 } { bad.push(format!("raw-text-not-one-buffer-{}-{}", shape, pretty)); }
+                        let want = match (shape, pretty) {
+                            (0, _) => text.clone(),
+                            (1, false) => format!("[{},{}]", text, text),
+                            (1, true) => format!("[\n  {},\n  {}\n]", text, text),
+                            (_, false) => format!("{{\"id\":1,\"body\":{}}}", text),
+                            (_, true) => format!("{{\n  \"id\": 1,\n  \"body\": {}\n}}", text),
+                        };
+                        if w.accepted != want.as_bytes() { bad.push(format!("output-{}-{}", shape, pretty)); }
+                    }
+                }
+                if bad.is_empty() { "ok".into() } else { format!("DIFF {}", bad.join(",")) }
+            }
             "rser" if f.len() == 2 || f.len() == 3 => {
                 let items: Vec<&str> = if f.len() == 3 { f[2].split(',').collect() } else { vec![] };
                 let mut raws = vec![];
